@@ -49,3 +49,40 @@ def recheck_file(prop, path):
             elif kind == "violation":
                 violations.append({"sig": "%s/offline/%s" % (prop, ev.get("op", "?")), "case": ev.get("case", [ev.get("op", "?")] + ev.get("in", [])), "detail": text})
     return {"checked": checked, "disagreements": disagreements, "violations": violations}
+
+
+# ---------------------------------------------------------------- C13: exp (primary oracle)
+import decimal
+
+
+@checker("C20")
+def check_exp_cfg(ev):
+    return check_exp(ev)
+
+
+@checker("C13")
+def check_exp(ev):
+    if ev.get("op") != "exp":
+        return None
+    xn, xe = dec(ev["in"][0])
+    rn, re_ = dec(ev["out"])
+    prec = int(ev.get("prec", 100))
+    ctx = decimal.Context(prec=prec + 50, Emax=decimal.MAX_EMAX, Emin=decimal.MIN_EMIN)
+    x = ctx.scaleb(decimal.Decimal(xn), xe) if True else None
+    # exact construction of x (no rounding): Decimal(int) is exact, scaleb is exact
+    x = decimal.Decimal(xn).scaleb(xe, context=decimal.Context(prec=max(len(str(abs(xn))) + 5, 28), Emax=decimal.MAX_EMAX, Emin=decimal.MIN_EMIN))
+    ref = ctx.exp(x)
+    if rn <= 0:
+        return ("violation", "exp(%s) = %s is not positive" % (ev["in"][0], ev["out"]))
+    big = decimal.Context(prec=prec + 300, Emax=decimal.MAX_EMAX, Emin=decimal.MIN_EMIN)
+    r = decimal.Decimal(rn).scaleb(re_, context=big)
+    # one unit of the 100th significant digit of the true value
+    ulp = decimal.Decimal(1).scaleb(ref.adjusted() - (prec - 1), context=big)
+    err = abs(big.subtract(r, ref))
+    slack = big.multiply(abs(ref), decimal.Decimal(1).scaleb(-(prec + 40)))
+    if err > big.add(ulp, slack):
+        return ("violation", "exp(%s) = %s differs from e^x = %s... by %s units of the last (%d-th) digit" % (
+            ev["in"][0][:80], ev["out"], str(ref)[:110], str(big.divide(err, ulp))[:12], prec))
+    if xn == 0 and r != 1:
+        return ("violation", "exp(0) = %s" % ev["out"])
+    return None
